@@ -712,7 +712,7 @@ class DirectionalConvexHull:
         )
         # some distances can be positive, so we take the max of all negative distances
         negative_directional_distances = all_directional_distances.copy()
-        negative_directional_distances[all_directional_distances > 0] = -np.inf
+        negative_directional_distances[all_directional_distances >= -self.tolerance] = -np.inf
         directional_distances[below_directional_convex_hull] = np.max(
             negative_directional_distances[below_directional_convex_hull], axis=1
         )
